@@ -11,7 +11,8 @@ CLAIM = {
             "octets) are packed into TS payloads as ISO 13818-1 prescribes (unit-start flag and pointer_field wherever a section "
             "starts) for EVERY cutting into up to 3 (quick) / 4 (thorough) payloads -- including cuts inside the 3-octet header and "
             "several sections per payload -- with and without 0xff stuffing; the sink must receive exactly the original sections, in "
-            "order, each once, complete and unmodified. With a lost payload (the next one flagged as a discontinuity) every output must "
+            "order, each once, complete and unmodified. A body octet equal to the stuffing value 0xff right where a section continues in the next payload "
+            "is data, not stuffing. With a lost payload (the next one flagged as a discontinuity) every output must "
             "still be an original section, complete, in order and not repeated, and every section transmitted completely before the gap "
             "or starting at / after the next unit start must be output (resynchronisation). With a section whose header is impossible (long form "
             "announced with a length too short for extended header + CRC) the sections before it are output, nothing made of the "
@@ -50,6 +51,21 @@ def build(tier):
                                         replay_witness=(len(qs) % 40 == 3),
                                         sample={"section body lengths": secs, "payload boundaries (stream octets)": cuts, "stuffing octets": stuff,
                                                 "lost payload": d or None, "bodies": "symbolic"} if len(qs) % 60 == 3 else None))
+    # a body octet equal to the stuffing value 0xff exactly where a section continues in the next payload
+    for secs in ([[2, 1], [3]] if quick else [[2, 1], [3], [1, 3, 1], [3, 2]]):
+        total = sum(3 + l for l in secs)
+        starts = [sum(3 + l for l in secs[:i]) for i in range(len(secs))]
+        bodies = [p for i, st in enumerate(starts) for p in range(st + 3, st + 3 + secs[i])]
+        for c in bodies:
+            for extra in ([()] if quick else [()] + [(x,) for x in range(1, total) if x != c and x not in bodies]):
+                cuts = sorted([0, c, total] + list(extra))
+                nm = "psim_sec%s_cut%s_ff%d" % ("-".join(map(str, secs)), "-".join(map(str, cuts)), c)
+                qs.append(Query(name=nm, harness="C16_psim.c",
+                                defines=["SECTIONS=" + ",".join(map(str, secs)), "CUTS=" + ",".join(map(str, cuts)), "STUFF=0", "DISRUPT=0", "FF_AT=%d" % c,
+                                         "VERIF_POOL_NO_MGR_REF"], shims=ps.SHIMS, unwind=20, unwindset=UW, fp_restrict=True,
+                                timeout=280 if quick else 900, leak=True, witness=True, replay_witness=False,
+                                sample={"section body lengths": secs, "payload boundaries (stream octets)": cuts,
+                                        "body octet fixed to 0xff": c, "other body octets": "symbolic"} if c == bodies[0] and not extra else None))
     # corrupt header: section c carries an impossible header; every cutting into 2-3 payloads
     for secs in ([[1, 2, 1]] if quick else [[1, 2, 1], [2, 1, 1]]):
         total = sum(3 + l for l in secs)
